@@ -495,11 +495,8 @@ def find_owners(W, tu):
                 continue
             sd, obj, args = X.call_parts(tu, n)
             for ai, a in enumerate(args):
-                lam = X.find_lambda(tu, a)
-                if lam is None:
-                    continue
-                clo = X.Closure(tu, lam)
-                if not clo.captures_this() or clo.op is None:
+                clo = X.find_closure(tu, a)
+                if clo is None or not clo.captures_this() or clo.op is None:
                     continue
                 q = sd.get('q', '')
                 starts = None
@@ -620,7 +617,7 @@ def mpath(tu, e, prefix=()):
     c = core(tu, e)
     if c is None:
         return None
-    if c.get('kind') == 'CXXThisExpr':
+    if X.is_this_expr(tu, c):           # `this`, or a functor's field that holds the owner's this
         return tuple(prefix)
     if c.get('kind') == 'MemberExpr' and 'fi' in tu.sd(c) and tu.kids(c):
         b = mpath(tu, tu.kids(c)[0], prefix)
@@ -988,7 +985,20 @@ def check_result_protocol(ctx, W, o, joiner):
     op = clo.op
     cinst = inst0 + ': closure started by the constructor'
     captured = {w for w, r, t in clo.captures if w not in ('this', None)}
+    captured |= {fid for fid, w in getattr(clo, 'fieldmap', {}).items() if w != 'this'}     # functor class: its other fields
     und, problems = [], []
+
+    def fref(e):
+        """declaration or functor field an expression designates"""
+        d = decl_ref(tu, e)
+        if d:
+            return d
+        c0 = core(tu, e)
+        if c0 is not None and c0.get('kind') == 'MemberExpr' and tu.kids(c0):
+            b0 = core(tu, tu.kids(c0)[0])
+            if b0 is not None and b0.get('kind') == 'CXXThisExpr':
+                return tu.sd(c0).get('d')
+        return None
     if not joiner.trivially_joined(o):
         for w, byref, qt in clo.captures:
             if w in captured and byref and any(p['id'] == w for p in o.ctor['params']):
@@ -1011,7 +1021,7 @@ def check_result_protocol(ctx, W, o, joiner):
                 sd, obj, args = X.call_parts(tu, x)
                 tgt = obj if (k == 'CXXOperatorCallExpr' and sd.get('q', '').endswith('::operator()')) else \
                     (tu.kids(x)[0] if k == 'CallExpr' and tu.kids(x) else None)
-                if tgt is not None and decl_ref(tu, tgt) in functors:
+                if tgt is not None and fref(tgt) in functors:
                     ev[x['id']] = ('invoke', x)
                     results.add(x['id'])
                     continue
@@ -1019,7 +1029,7 @@ def check_result_protocol(ctx, W, o, joiner):
             if mc0 is not None and mc0[0].get('recid') in family:
                 callee, p2, args = mc0
                 nf = {callee['params'][ai]['id'] for ai, a in enumerate(args)
-                      if ai < len(callee['params']) and decl_ref(tu, a) in functors}
+                      if ai < len(callee['params']) and fref(a) in functors}
                 ev[x['id']] = ('call', x, callee, nf, p2, args)
                 continue
             if k in ('CallExpr', 'CXXMemberCallExpr') + X.CONSTRUCTS and k not in ('CXXMemberCallExpr',):
@@ -1739,6 +1749,8 @@ def check_async(ctx, W, tu, f):
     news = [(b, i, n) for b, i, n in g.stmts() if n.get('kind') == 'CXXNewExpr' and RX_PTASK.match(X.clean_t(tu.sd(n).get('aty', '')))]
     shared = False
     tvar = tname = None
+    helper = None
+    moved0 = None
     if len(news) == 1:
         nb, ni, new = news[0]
         init = tu.node(tu.sd(new).get('init'))
@@ -1752,13 +1764,29 @@ def check_async(ctx, W, tu, f):
             und.append('the packaged_task is not constructed from the closure parameter')
         p = tu.par(new)
         hops = 0
-        while p is not None and p.get('kind') != 'VarDecl' and hops < 6:
+        while p is not None and p.get('kind') not in ('VarDecl', 'CallExpr') and hops < 6:
             p = tu.par(p)
             hops += 1
-        if p is None or p.get('kind') != 'VarDecl' or '*' not in (p.get('type', {}).get('desugaredQualType') or p.get('type', {}).get('qualType', '')):
+        if p is not None and p.get('kind') == 'CallExpr' and tu.callee_fn(p) is not None and tu.cfg(tu.callee_fn(p)) is not None:
+            # the new task is handed straight to a helper that owns the protocol: analyse the helper with its parameter as the pointer
+            pf = tu.callee_fn(p)
+            args0 = tu.call_parts(p)[2]
+            ai0 = [i0 for i0, a0 in enumerate(args0) if new['id'] in {y.get('id') for y in tu.walk(a0)}]
+            rets0 = [y for b0, i0, y in g.stmts() if y.get('kind') == 'ReturnStmt' and tu.kids(y)]
+            if not ai0 or ai0[0] >= len(pf['params']):
+                ctx.undecided(R5, inst, 'cannot follow the new packaged_task into %s' % pf['q'], loc)
+                return 1
+            if not (len(rets0) == 1 and core(tu, tu.kids(rets0[0])[0]) is not None and core(tu, tu.kids(rets0[0])[0]).get('id') == p['id']):
+                und.append('async() does not return the value of %s, which receives the new packaged_task' % short_name(pf['q']))
+            moved0 = moved_lvalue_params(tu, f)
+            f, g, decl = pf, tu.cfg(pf), X.fn_decl(tu, pf)
+            tvar, tname = pf['params'][ai0[0]]['id'], pf['params'][ai0[0]]['name']
+            helper = pf
+        elif p is None or p.get('kind') != 'VarDecl' or '*' not in (p.get('type', {}).get('desugaredQualType') or p.get('type', {}).get('qualType', '')):
             ctx.undecided(R5, inst, 'the new packaged_task is not held in a local raw pointer', loc)
             return 1
-        tvar, tname = p['id'], p.get('name')
+        else:
+            tvar, tname = p['id'], p.get('name')
     elif not news:
         # alternative with the same meaning: the task lives in a std::shared_ptr created by make_shared from the closure
         for b, i, n in g.stmts():
@@ -1827,7 +1855,7 @@ def check_async(ctx, W, tu, f):
         if k == 'CXXDeleteExpr' and tu.kids(n) and decl_ref(tu, tu.kids(n)[0]) == tvar:
             problems.append(('deleted-by-async', 'async() itself deletes the packaged_task `%s` that the scheduled closure invokes and '
                              'deletes (%s)' % (tname, tu.loc(n)), tu.loc(n)))
-    for prm, mv, cons in moved_lvalue_params(tu, f):
+    for prm, mv, cons in (moved0 if moved0 is not None else moved_lvalue_params(tu, f)):
         problems.append(('moves-from-callers-lvalue', 'async() applies std::move to its parameter `%s` at %s although in this '
                          'instantiation it is an lvalue reference (`%s`, the caller passed a named callable): %s steals the state of the '
                          'object the caller still owns -- a second async()/call of that callable runs a gutted closure (wrong value, or '
@@ -1886,6 +1914,8 @@ def check_async(ctx, W, tu, f):
     else:
         cg = tu.cfg(clo.op)
         cprob = []
+        tvars = {tvar}
+        followed = set()
 
         def ctransfer(blk, idx, e, st):
             if e[0] != 'S':
@@ -1895,13 +1925,22 @@ def check_async(ctx, W, tu, f):
                 return [st]
             inv, dele = st
             k = x.get('kind')
+            if k == 'CallExpr' and len(tvars) < 4:
+                sd, obj, args = tu.call_parts(x)
+                c0 = tu.callee_fn(x)
+                hit = [i0 for i0, a0 in enumerate(args) if target(a0) in tvars]
+                if hit and c0 is not None and tu.cfg(c0) is not None and hit[0] < len(c0['params']) and sd.get('q') not in X.FORWARDERS:
+                    tvars.add(c0['params'][hit[0]]['id'])
+                    followed.add(x['id'])
+                    sub, _r0 = X.exit_states(tu.cfg(c0), [st], ctransfer)
+                    return sorted(sub) if sub else [st]
             if k == 'CXXOperatorCallExpr':
                 sd, obj, args = X.call_parts(tu, x)
-                if sd.get('q', '').endswith('::operator()') and obj is not None and target(obj) == tvar:
+                if sd.get('q', '').endswith('::operator()') and obj is not None and target(obj) in tvars:
                     if dele:
                         cprob.append(('use-after-delete', 'the closure invokes the packaged_task at %s after deleting it' % tu.loc(x), tu.loc(x)))
                     return [(min(2, inv + 1), dele)]
-            if k == 'CXXDeleteExpr' and tu.kids(x) and target(tu.kids(x)[0]) == tvar:
+            if k == 'CXXDeleteExpr' and tu.kids(x) and target(tu.kids(x)[0]) in tvars:
                 if dele:
                     cprob.append(('double-delete', 'the closure deletes the packaged_task twice (%s)' % tu.loc(x), tu.loc(x)))
                 if not inv:
@@ -1915,7 +1954,7 @@ def check_async(ctx, W, tu, f):
         for b2, i2, x in cg.stmts():
             if x.get('kind') in ('CallExpr', 'CXXMemberCallExpr'):
                 sd2, obj2, args2 = X.call_parts(tu, x)
-                if any(target(a) == tvar for a in args2) and sd2.get('q') not in X.FORWARDERS:
+                if any(target(a) in tvars for a in args2) and sd2.get('q') not in X.FORWARDERS and x['id'] not in followed:
                     unknown.append('%s (%s)' % (sd2.get('q'), tu.loc(x)))
         for inv, dele in sorted(cex):
             if inv == 0 and unknown:
@@ -2979,6 +3018,19 @@ def classify_scheduler(ctx, W):
                             hit.append(x)
                 if k == 'CXXDeleteExpr' and tu.kids(x) and member_of_this(tu, tu.kids(x)[0]) == pfield and not st:
                     hit.append(x)
+                if k == 'CallExpr' and not st:
+                    # a helper that receives the pipe member (by reference / pointer) and delete[]s it
+                    sd, obj, args = tu.call_parts(x)
+                    c0 = tu.callee_fn(x)
+                    if c0 is not None and tu.cfg(c0) is not None:
+                        for ai, a in enumerate(args):
+                            y0 = X.addr_of(tu, a) or a
+                            if member_of_this(tu, y0) == pfield and ai < len(c0['params']):
+                                pid0 = c0['params'][ai]['id']
+                                for z in tu.walk(X.fn_decl(tu, c0) or {}):
+                                    if z.get('kind') == 'CXXDeleteExpr' and tu.kids(z) and \
+                                            decl_ref(tu, X.deref_of(tu, tu.kids(z)[0]) or tu.kids(z)[0]) == pid0:
+                                        hit.append(x)
                 return [st]
             exits, _r = X.exit_states(g, [0], transfer)
             if hit:
@@ -3637,7 +3689,16 @@ def check_workers_exist(ctx, W, info):
                         decl_ref(tu, tu.kids(c)[0]) == start[0] and member_of_this(tu, tu.kids(c)[1]):
                     fld = (member_of_this(tu, tu.kids(c)[1]), core(tu, tu.kids(c)[1]).get('name'))
             if start is not None and start[1] is not None and fld is not None:
-                loops.append((f, L, start[1], fld))
+                skipped = set()
+                for y in tu.walk(body):
+                    if y.get('kind') == 'IfStmt' and tu.kids(y):
+                        c = core(tu, tu.kids(y)[0])
+                        if c is not None and c.get('kind') == 'BinaryOperator' and c.get('opcode') == '==' and \
+                                any(z.get('kind') == 'ContinueStmt' for z in tu.walk(tu.kids(y)[1] if len(tu.kids(y)) > 1 else {})):
+                            for a0, b0 in ((tu.kids(c)[0], tu.kids(c)[1]), (tu.kids(c)[1], tu.kids(c)[0])):
+                                if decl_ref(tu, a0) == start[0] and const_value(tu, b0) is not None and const_value(tu, b0) >= start[1]:
+                                    skipped.add(const_value(tu, b0))
+                loops.append((f, L, start[1] + len(skipped), fld))
     if len(loops) != 1:
         ctx.undecided(R12, '[INTERNAL] worker thread creation' + W.tag, '%d thread creation loops of the form `for (i = S; i < member; ++i)` '
                       'found: cannot derive the number of worker threads' % len(loops), SCHEDULER)
@@ -4192,6 +4253,12 @@ def check_steal_loops(ctx, W, tu, only_prefix=None, verdicts=None):
                     if y.get('kind') == 'BinaryOperator' and y.get('opcode') == '!=' and v and \
                             (decl_ref(tu, tu.kids(y)[0]) == v or decl_ref(tu, tu.kids(y)[1]) == v):
                         skips_self = tu.kids(y)[1] if decl_ref(tu, tu.kids(y)[0]) == v else tu.kids(y)[0]
+                    if y.get('kind') == 'IfStmt' and len(tu.kids(y)) >= 2 and v:       # if (victim == self) continue;
+                        c0 = core(tu, tu.kids(y)[0])
+                        if c0 is not None and c0.get('kind') == 'BinaryOperator' and c0.get('opcode') == '==' and \
+                                (decl_ref(tu, tu.kids(c0)[0]) == v or decl_ref(tu, tu.kids(c0)[1]) == v) and \
+                                any(z.get('kind') == 'ContinueStmt' for z in tu.walk(tu.kids(y)[1])):
+                            skips_self = tu.kids(c0)[1] if decl_ref(tu, tu.kids(c0)[0]) == v else tu.kids(c0)[0]
                 if counter is None or bound is None:
                     verdict, text = 'undecided', 'cannot relate the loop counter to the rotation %s' % tu.show(rot)
                 elif same_expr(tu, bound, nexpr):
